@@ -186,8 +186,8 @@ def _mutation_at(draw, spec, serial, at, want, free_code, idx):
         m['seq'] = draw(st.sampled_from([2, 77, 1234567890]))
     elif kind == 'set-rename':
         # the set the object lives in gets a (fresh) name, or loses its name if no unnamed set of the type exists
-        unnamed_exists = any(o['t'] == op['t'] and o.get('set') is None for o in ops)
-        m['set'] = None if (op.get('set') is not None and not unnamed_exists and draw(st.booleans())) \
+        unnamed_exists = any(o['t'] == op['t'] and not o.get('set') for o in ops)
+        m['set'] = None if (op.get('set') and not unnamed_exists and draw(st.booleans())) \
             else 'SET-' + str(serial)
     elif kind == 'dimension':
         w = list(op['data']['shape'][1:]) or [1]
@@ -333,9 +333,9 @@ def apply_mutation_to_spec(spec, m):
     elif m['kind'] == 'hdr-seq':
         spec['lfs'][0].setdefault('hdr', {})['seq'] = m['seq']
     elif m['kind'] == 'set-rename':
-        old = op.get('set')
+        old = op.get('set') or None         # ('' and None both mean the unnamed set)
         for o in spec['lfs'][0]['ops']:
-            if o['t'] == op['t'] and o.get('set') == old and o['t'] != 'nfdata':
+            if o['t'] == op['t'] and (o.get('set') or None) == old and o['t'] != 'nfdata':
                 if m['set'] is None:
                     o.pop('set', None)
                 else:
